@@ -14,6 +14,11 @@ def name_value(v):
 
 def oracle(sc, res):
     v = []
+    if any(e[2] == 'STORM' for e in res.trace):
+        # "settles within bounded time": the claim exchange never ended (the harness cut the run after a bound on events)
+        v.append(dict(kind='claim-exchange-never-ends', events=[e[3] for e in res.trace if e[2] == 'STORM'][0],
+                      claims_on_the_bus=sum(1 for e in res.trace if e[2] == 'tx' and ((e[3] >> 8) & 0xFFFF) == 0xEEFF)))
+        return v
     cas = []          # (stack, name, aac, final state, final addr)
     for i, sd in enumerate(sc['stacks']):
         for j, cd in enumerate(sd.get('cas', [])):
